@@ -35,7 +35,7 @@ Inductive lexerr :=
 Record lst := {
   rest : list N;            (* runes from the current position on; [] at or after the end *)
   lpos : nat; lline : nat; lcol : nat; lstart : nat;
-  past : bool;              (* position > len(characters): readChar is a no-op *)
+  past : bool;              (* unused since the lexer stops at the end-of-input position; always false *)
   prev_eof : bool;          (* prevToken.Type == EOF *)
   prev_period : bool;       (* prevToken.Type == PERIOD *)
 }.
@@ -48,16 +48,17 @@ Definition init (input : list N) : lst :=
      prev_eof := false; prev_period := false |}.
 
 Definition read_char (s : lst) : lst :=
-  if past s then s else
-    let prev := cur s in
+  match rest s with
+  | [] => s                      (* at the end of the input: the lexer never moves beyond it *)
+  | prev :: r =>
     let pos' := S (lpos s) in
-    let past' := match rest s with [] => true | _ => false end in
     if prev =? 10 then
-      {| rest := tl (rest s); lpos := pos'; lline := S (lline s); lcol := 0%nat; lstart := pos';
-         past := past'; prev_eof := prev_eof s; prev_period := prev_period s |}
+      {| rest := r; lpos := pos'; lline := S (lline s); lcol := 0%nat; lstart := pos';
+         past := false; prev_eof := prev_eof s; prev_period := prev_period s |}
     else
-      {| rest := tl (rest s); lpos := pos'; lline := lline s; lcol := S (lcol s); lstart := lstart s;
-         past := past'; prev_eof := prev_eof s; prev_period := prev_period s |}.
+      {| rest := r; lpos := pos'; lline := lline s; lcol := S (lcol s); lstart := lstart s;
+         past := false; prev_eof := prev_eof s; prev_period := prev_period s |}
+  end.
 
 Definition get_pos (s : lst) : position :=
   {| p_value := cur s; p_char := lpos s; p_linestart := lstart s; p_line := lline s; p_col := lcol s |}.
@@ -113,7 +114,7 @@ Fixpoint skip_multi (fuel : nat) (s : lst) : lst :=
   match fuel with
   | O => s
   | S f =>
-      if cur s =? 0 then read_char s                                  (* found at EOF, then one readChar *)
+      if cur s =? 0 then s                                            (* end of input: stop here *)
       else if (cur s =? 42) && (peek s =? 47) then read_char (read_char s)
       else skip_multi f (read_char s)
   end.
@@ -249,14 +250,15 @@ Fixpoint read_string (fuel : nat) (endc : N) (s : lst) (acc : list N) : lst * li
           else (s2, [], Some (EInvalidEscape e))
   end.
 
-(* readBacktick: raw runes between the quotes *)
+(* readBacktick: raw runes between the quotes, carriage returns discarded *)
 Fixpoint read_backtick (fuel : nat) (s : lst) (acc : list N) : lst * list N * option lexerr :=
   match fuel with
   | O => (s, [], Some EUnterminatedString)
   | S f =>
       if peek s =? 0 then (s, [], Some EUnterminatedString)
       else let s1 := read_char s in
-           if cur s1 =? 96 then (s1, acc, None) else read_backtick f s1 (acc ++ [cur s1])
+           if cur s1 =? 96 then (s1, acc, None)
+           else read_backtick f s1 (if cur s1 =? 13 then acc else acc ++ [cur s1])   (* '\r' is discarded *)
   end.
 
 (* ---------- identifiers ---------- *)
@@ -319,10 +321,10 @@ Fixpoint next (fuel : nat) (s0 : lst) : lexres :=
     let p := peek s in
     if (c =? 35) || ((c =? 47) && (p =? 47)) then
       next f (skip_ws (sz s) (skip_to_eol (sz s) s))
+    else if (c =? 47) && (p =? 42) then
+      (* a block comment: skip it and start over (any number of consecutive comments) *)
+      next f (skip_ws (sz s) (skip_multi (sz s) s))
     else
-      let s := if (c =? 47) && (p =? 42) then skip_ws (sz s) (skip_multi (sz s) s) else s in
-      let c := cur s in
-      let p := peek s in
       if prev_eof s then LTok (mk_token EOF [0] start s) s
       else
         let one (k : tkind) := finish (mk_token k [c] start s) s in
